@@ -209,11 +209,11 @@ CHECKS["C12"] = dict(
 CHECKS["C13"] = dict(
     src="C13.cpp", level="model_checking",
     entries=[
-        dict(name="harness_c13_lambda", quick={"depth": 1}, thorough={"depth": 2, "_wall": 1700}),
+        dict(name="harness_c13_lambda", quick={"depth": 1, "udepth": 0, "cse2flip": 1}, thorough={"depth": 2, "udepth": 1, "_wall": 1700}),
         dict(name="harness_c13_logic", quick={}, thorough={}),
     ],
     anchors=["SymEngine::LambdaDoubleVisitor<double>::init", "SymEngine::LambdaDoubleVisitor<double>::bvisit", "SymEngine::LambdaRealDoubleVisitor"],
-    bounds="three outputs (e1, e1+e2 sharing a subterm, e1*e1) with e1 a tree of depth <= 1 (2) and e2 of depth <= 1 over {x, y, 2, -1/2, 3} and elementary functions; cse on/off; re-initialisation with swapped inputs and another cse setting; for all real input vectors (x, y); relationals, And/Or, Piecewise, max/min, sign, abs for all real x, y",
+    bounds="three outputs (e1, e1+e2 sharing a subterm, e1*(e1+1)) with e1 a tree of depth <= 1 (thorough: 2) and e2 of depth 0 (thorough: <= 1) over {x, y, 2, -1/2, 3} and elementary functions; cse on/off; re-initialisation with swapped inputs and another cse setting; for all real input vectors (x, y); relationals, And/Or, Piecewise, max/min, sign, abs for all real x, y",
     outside=["rounding error", "Contains, floor/ceiling", "LambdaComplexDoubleVisitor"],
     assumptions=["real abstraction D6 of floating-point code", "oracle D2 (vlib/vrecipe.h)"],
 )
